@@ -464,6 +464,8 @@ ARTEFACTS = {
     "g_kb1_bytes": ["graph", "kb1", "bytes", "3000", "{out}", "{alpha}"],
     "g_kb2_bytes": ["graph", "kb2", "bytes", "3000", "{out}", "{alpha}"],
     "g_event": ["graph", "event", "events", "5000", "{out}", "{alpha}"],
+    "g_event_ign": ["graph", "event_ign", "events", "5000", "{out}", "{alpha}"],
+    "g_kb2_ign_events": ["graph", "kb2_ign", "kbevents", "4000", "{out}", "{alpha}"],
     "g_kb2_events": ["graph", "kb2", "kbevents", "4000", "{out}", "{alpha}"],
     "g_kb2_bits": ["graph", "kb2:lean", "bits", "200000", "{out}", "{alpha}"],
     "g_kb1_bits": ["graph", "kb1:lean", "bits", "200000", "{out}", "{alpha}"],
@@ -514,6 +516,10 @@ JOBS = {
     "mc_event": dict(kind="tlc", module="MC_Event", cfg="MC_Event.cfg", workers=8, cont=False),
     "conf_event": dict(timeout=2400, kind="tlc", module="Conf_Event", cfg="Conf_Event.cfg", workers=8, heap="8g",
                        env={"GRAPH": "art:g_event", "ALPHA": "alpha:g_event", "COMP": "event"}),
+    "conf_event_ign": dict(timeout=2400, kind="tlc", module="Conf_Event", cfg="Conf_Event.cfg", workers=8, heap="8g",
+                           env={"GRAPH": "art:g_event_ign", "ALPHA": "alpha:g_event_ign", "COMP": "event_ign"}),
+    "conf_kb2_ign_events": dict(timeout=2400, kind="tlc", module="Conf_Event", cfg="Conf_Event.cfg", workers=8, heap="8g",
+                                env={"GRAPH": "art:g_kb2_ign_events", "ALPHA": "alpha:g_kb2_ign_events", "COMP": "kb2_ign"}),
     "conf_kb2_events": dict(timeout=2400, kind="tlc", module="Conf_Event", cfg="Conf_Event.cfg", workers=8, heap="8g",
                             env={"GRAPH": "art:g_kb2_events", "ALPHA": "alpha:g_kb2_events", "COMP": "kb2"}),
     "mc_keyboard_set2": dict(kind="tlc", module="MC_Keyboard", cfg="MC_Keyboard_set2.cfg", workers=8, cont=False),
@@ -655,8 +661,8 @@ PROPS = {
     "C11": dict(quick=["conf_layouts_model", "conf_layouts", "conf_preds"], tables=["t_layouts", "t_preds"]),
     "C04": dict(quick=["mc_event", "conf_event", "conf_kb2_events", "replay_event_q", "tracespec_kb2", "tracespec_sys3"],
                 thorough=["mc_event", "conf_event", "conf_kb2_events", "replay_event_t", "tracespec_kb2_long", "tracespec_sys4"], graphs=["g_event", "g_kb2_events"]),
-    "C14": dict(quick=["mc_event", "conf_event", "conf_kb2_events", "replay_event_q", "tracespec_kb2", "conf_eventlayouts", "tracespec_sys3"],
-                thorough=["mc_event", "conf_event", "conf_kb2_events", "replay_event_t", "tracespec_kb2_long", "conf_eventlayouts", "tracespec_sys4"], graphs=["g_event", "g_kb2_events"]),
+    "C14": dict(quick=["mc_event", "conf_event", "conf_kb2_events", "replay_event_q", "tracespec_kb2", "conf_eventlayouts", "tracespec_sys3", "conf_event_ign", "conf_kb2_ign_events"],
+                thorough=["mc_event", "conf_event", "conf_kb2_events", "replay_event_t", "tracespec_kb2_long", "conf_eventlayouts", "tracespec_sys4", "conf_event_ign", "conf_kb2_ign_events"], graphs=["g_event", "g_kb2_events"]),
     "C08": dict(quick=["mc_frame", "conf_frame", "conf_words", "conf_set1", "conf_set2", "conf_kb1_bytes",
                        "conf_kb2_bytes", "conf_event", "conf_kb2_events", "conf_layouts", "conf_eventlayouts", "conf_frame_default", "conf_set1_default", "conf_set2_default", "replay_frame_q", "replay_set1_q", "replay_set2_q", "replay_event_q"],
                 graphs=["g_frame", "g_set1", "g_set2", "g_kb1_bytes", "g_kb2_bytes", "g_event", "g_kb2_events"],
@@ -786,7 +792,7 @@ def write_replay(ctx, pid, n, rec, jobname):
     comp = rec.get("comp")
     # turn alphabet indices into concrete inputs so the replay is self-contained
     gname = {"frame": "g_frame", "set1": "g_set1", "set2": "g_set2", "kb1": "g_kb1_bytes",
-             "kb2": "g_kb2_bytes", "event": "g_event", "frame_default": "g_frame_default",
+             "kb2": "g_kb2_bytes", "event": "g_event", "event_ign": "g_event_ign", "kb2_ign": "g_kb2_ign_events", "frame_default": "g_frame_default",
              "set1_default": "g_set1_default", "set2_default": "g_set2_default"}.get(comp)
     if comp == "kb2" and rec.get("kind") in ("event-io", "getter", "mods-shown"):
         gname = "g_kb2_events"
